@@ -20,9 +20,9 @@ def main():
     if w.get("error_tail") and w["verdict"] is None:
         print(w["error_tail"]); print("overlay kept at", ov); return 2
     def go(u):
-        r = kani.run_harness(ov, u["harness"], solver=u.get("solver"), timeout=u.get("timeout", 600), unwind=u.get("unwind"), extra=u.get("extra"))
+        r = kani.run_harness(ov, u["harness"], solver=u.get("solver"), timeout=u.get("timeout", 600), unwind=u.get("unwind"), extra=u.get("extra"), should_panic=u.get("should_panic", False))
         if r["status"] == "refuted" and os.environ.get("PLAYBACK"):
-            r2 = kani.run_harness(ov, u["harness"], solver=u.get("solver"), timeout=u.get("timeout", 600) * 3, unwind=u.get("unwind"), extra=u.get("extra"), playback=True)
+            r2 = kani.run_harness(ov, u["harness"], solver=u.get("solver"), timeout=u.get("timeout", 600) * 3, unwind=u.get("unwind"), extra=u.get("extra"), playback=True, should_panic=u.get("should_panic", False))
             r["concrete_vals"], r["concrete_for"] = r2.get("concrete_vals"), r2.get("concrete_for")
         return u, r
     with ThreadPoolExecutor(max_workers=jobs) as ex:
